@@ -347,7 +347,19 @@ def check_body_read(P, R):
             if n_.kind == 'for':
                 return bool(T.loops_of(n_.ast))
             return any(m is n_ for s_ in [x for (x, lab) in n_.succ if lab != 'exc'] for m in g.reachable_from([s_]))
-        second = [starts[j] for i in range(len(starts)) for j in range(len(starts)) if (i != j and g.can_reach(sn_[i], sn_[j])) or (i == j and _again(sn_[i]))]
+        def _exclusive(a_, b_):
+            # the two calls are the two arms of one conditional expression: only one of them is evaluated
+            p_ = getattr(a_, '_p', None)
+            while p_ is not None and not isinstance(p_, ast.stmt):
+                if isinstance(p_, ast.IfExp):
+                    in_body = lambda c_: any(c_ is x_ for x_ in ast.walk(p_.body))
+                    in_else = lambda c_: any(c_ is x_ for x_ in ast.walk(p_.orelse))
+                    if (in_body(a_) and in_else(b_)) or (in_else(a_) and in_body(b_)):
+                        return True
+                p_ = getattr(p_, '_p', None)
+            return False
+        second = [starts[j] for i in range(len(starts)) for j in range(len(starts))
+                  if (i != j and not _exclusive(starts[i], starts[j]) and (g.can_reach(sn_[i], sn_[j]) if sn_[i] is not sn_[j] else True)) or (i == j and _again(sn_[i]))]
         once = not second
         R.ob('C04.d', f, second[0] if second else starts[0], once, text=f'the part reader is started once ({len(starts)} call site(s), none follows another)', detail='' if once else
              f'`{short(second[0])}` starts a second reader on the same stream: it counts the declared length from zero again, so after the bytes already consumed another '
